@@ -53,7 +53,7 @@ from ..network.connection import ConnectionState, ServerConnection
 from ..network.network import Network
 from ..settings import Settings
 from ..user.manager import UserManager
-from ..user.model import BlockingFlag, UserStatus
+from ..user.model import BlockingFlag, User, UserStatus
 
 
 logger = logging.getLogger(__name__)
@@ -221,6 +221,9 @@ class RoomManager(BaseManager):
         # room should always have an owner
         room.private = bool(message.owner)
 
+        # The message contains the full list of users in the room. The current
+        # list is only replaced at the end to keep the user objects referenced
+        users: list[User] = []
         for idx, name in enumerate(message.users):
             user = self._user_manager.get_user_object(name)
             user.status = UserStatus(message.users_status[idx])
@@ -228,7 +231,10 @@ class RoomManager(BaseManager):
             user.country = message.users_countries[idx]
             user.slots_free = message.users_slots_free[idx]
 
-            room.add_user(user)
+            if user not in users:
+                users.append(user)
+
+        room.users = users
 
         # For private rooms
         room.owner = message.owner
